@@ -403,7 +403,8 @@ def _r10_2(ctx, R, RULE='R10.2'):
             if src(fill_loops[0].iter) != f.params[1]:
                 why = 'fills from %s, not from the written list' % src(
                     fill_loops[0].iter)
-            vals = [src(n.value) for n in own_nodes_of(fill_loops[0])
+            vals = [src(C.inline_locals(f, n.value))
+                    for n in own_nodes_of(fill_loops[0])
                     if isinstance(n, ast.Assign) and any(
                         isinstance(t, ast.Subscript) and src(t.value) ==
                         cons_map for t in n.targets)]
